@@ -1362,6 +1362,29 @@ func (w *walker) assign(lhs ast.Expr, rhs ast.Expr, s vset) vset {
 	if rhs == nil {
 		return s
 	}
+	// a fresh empty composite literal: every field holds its zero value
+	{
+		r := ast.Unparen(rhs)
+		if ue, ok := r.(*ast.UnaryExpr); ok && ue.Op == token.AND {
+			r = ast.Unparen(ue.X)
+		}
+		if cl, ok := r.(*ast.CompositeLit); ok && len(cl.Elts) == 0 {
+			if _, isStruct := w.sc.info.TypeOf(cl).Underlying().(*types.Struct); isStruct {
+				for i, a := range w.u.atoms {
+					if path, cst, ok := splitEqConst(a); ok && path != p && prefixOf(p, path) && strings.Count(path[len(p):], ".") == 1 {
+						if cst == `#""` || cst == "#0" || cst == "#false" {
+							s = w.u.assume(s, i, true)
+						} else {
+							s = w.u.assume(s, i, false)
+						}
+					}
+					if strings.HasPrefix(a, "eq("+p+".") && strings.HasSuffix(a, ",nil)") && strings.Count(a[len("eq("+p):], ".") == 1 {
+						s = w.u.assume(s, i, true)
+					}
+				}
+			}
+		}
+	}
 	// strengthen on constant / nil right-hand sides
 	rc := w.e.canon(rhs, w.sc, nil)
 	isConst := strings.HasPrefix(rc, "#") || rc == "nil"
